@@ -378,7 +378,7 @@ func genC07Dbus(t *rapid.T) C07Dbus {
 	c.Action = pick(t, "action", []string{"own", "talk", "common"})
 	c.Indent = pick(t, "indent", []string{"  ", "    "})
 	c.Args["bus"] = pick(t, "bus", []string{"system", "session", "accessibility"})
-	c.Args["name"] = pick(t, "name", []string{"org.freedesktop.NetworkManager", "org.gnome.Shell", "org.a", "com.example.Foo_Bar.Baz1", "org.mpris.MediaPlayer2.x", "org.gnome.Evolution-alarm-notify", "org.gnome.user-share.webdav"})
+	c.Args["name"] = pick(t, "name", []string{"org.freedesktop.NetworkManager", "org.gnome.Shell", "org.a", "com.example.Foo_Bar.Baz1", "org.mpris.MediaPlayer2.x", "org.gnome.Evolution-alarm-notify", "org.gnome.user-share.webdav", "org.a11y.{B,b}us"})
 	if c.Action != "own" || chance(t, "ownlabel", 4) {
 		// own takes no label (shipped: upower gives one all the same): it must not end up in a rule
 		c.Args["label"] = pick(t, "label", []string{"systemd-logind", "gnome-shell", "@{p_systemd}", "foo//bar", `"{a,b}"`})
@@ -456,8 +456,8 @@ func (p C07Profile) Text() string {
 	var b strings.Builder
 	b.WriteString("# apparmor.d - test profile\n\nabi <abi/4.0>,\n\ninclude <tunables/global>\n\n")
 	fmt.Fprintf(&b, "@{exec_path} = %s\n", strings.Join(p.Exec, " "))
-	if len(p.More) > 0 {
-		fmt.Fprintf(&b, "@{exec_path} += %s\n", strings.Join(p.More, " "))
+	for _, m := range p.More {
+		fmt.Fprintf(&b, "@{exec_path} += %s\n", m) // one line per appended value
 	}
 	fl := ""
 	if p.Flags != "" {
@@ -504,7 +504,7 @@ func genC07Set(t *rapid.T, kind string) C07Set {
 		p := C07Profile{Name: names[i]}
 		p.Exec = subsetOrdered(t, "execvals", c07ExecValues, 1, 3)
 		if chance(t, "more", 3) {
-			p.More = []string{pick(t, "morev", []string{"@{bin}/extra", "/opt/more/{c,d}"})}
+			p.More = subsetOrdered(t, "morev", []string{"@{bin}/extra", "/opt/more/{c,d}", "@{lib}/extra/e"}, 1, 3)
 		}
 		nb := rapid.IntRange(1, 8).Draw(t, "nbody")
 		for j := 0; j < nb; j++ {
